@@ -62,22 +62,25 @@ def cmd_replay(a):
 
 
 def cmd_setup(a):
-    """build every harness command (warms the go build cache) and SANY-parse every module."""
-    rc = 0
+    """build every harness command (warms the go build cache) and SANY-parse every module.
+    Problems are reported but do not fail the setup: every check rebuilds and re-parses what it
+    needs and reports its own infrastructure failures (exit 2)."""
     cmds = sorted(os.listdir(os.path.join(vlib.HARNESS, "cmd")))
+    bad = []
     for c in cmds:
         try:
             vlib.go_build(c)
         except vlib.Infra as e:
-            print(e, file=sys.stderr)
-            rc = 1
+            print("WARNING:", str(e)[:2000], file=sys.stderr)
+            bad.append("cmd/" + c)
     for f in sorted(os.listdir(vlib.SPEC)):
         if f.endswith(".tla"):
             ok, out = vlib.sany(os.path.join(vlib.SPEC, f))
             if not ok:
-                print("SANY failed for", f, "\n", out[-2000:], file=sys.stderr)
-                rc = 1
-    sys.exit(rc)
+                print("WARNING: SANY failed for", f, "\n", out[-1500:], file=sys.stderr)
+                bad.append(f)
+    print("setup done; problems: %s" % (bad or "none"))
+    sys.exit(0)
 
 
 def main():
